@@ -68,6 +68,14 @@ def step (line : String) : String :=
         -- order filtered to writable services
         showGroups (groupsOf hash writable)
       | none => "bad-op"
+    else if op == "reload" then
+      -- the same client is given several service lists in turn (discovery refresh); after each
+      -- load the probe order is that of the CURRENT list's uuids and of nothing else
+      let one := fun (l : String) =>
+        match (splitList l).mapM (parsePair ':') with
+        | some ps => showGroups (groupsOf hash (ps.map (·.1)))
+        | none => "bad-op"
+      " / ".intercalate ((us.splitOn ";").map one)
     else "bad-op"
   | ["bal", hash, us, _rep] =>
     -- per-mount replication only changes how keep-balance's ranking is observed, not the ranking
